@@ -1260,6 +1260,40 @@ fn property_oracles(rep: &mut Report) {
         " 900| 10.25".into(),
         "a parameter hides nothing global and is what the name denotes",
     );
+    // a name declared DIM SHARED denotes the shared variable inside a procedure: a local DIM of the same name and
+    // qualifier there is either refused or - if a front end accepts it - must not silently give the procedure a second
+    // variable (after a wave-11 seed: the compact lookup saw the current scope only and the local shadowed the shared one)
+    for q in ALLQ {
+        let (v1, v2, shown2) = if q == Q::Str { ("\"u\"", "\"w\"", "w") } else { ("10", "20", " 20") };
+        for bare in [false, true] {
+            for callee in ["SUB", "FUNCTION"] {
+                let def = if bare { format!("{} A\n", q.def_kw()) } else { String::new() };
+                let n = if bare { "Abc".to_owned() } else { format!("Abc{}", q.sfx()) };
+                let (head, call) = if callee == "SUB" { ("SUB Sb".to_owned(), "Sb\n".to_owned()) } else { ("FUNCTION Fn%".to_owned(), "Z% = Fn%\n".to_owned()) };
+                let text = format!(
+                    "{def}DIM SHARED {n}\n{n} = {v1}\n{call}PRINT {n}\n{head}\nDIM {n}\n{n} = {v2}\nEND {callee}\n",
+                    def = def, n = n, v1 = v1, v2 = v2, call = call, head = head, callee = callee
+                );
+                rep.case(Some(format!("oracle:{}", text)));
+                rep.bump("oracle.programs");
+                let got = observe(&text);
+                if got.starts_with("rejected ") {
+                    rep.bump("oracle.shared-not-shadowed.rejected");
+                } else if got == shown2 {
+                    rep.bump("oracle.shared-not-shadowed.same-object");
+                } else {
+                    rep.fail(Failure {
+                        kind: Kind::ImplVsProperty,
+                        signature: "rule:shared-not-shadowed".into(),
+                        input: text,
+                        implementation: got,
+                        expected: format!("rejected, or {} (the procedure's name denotes the shared variable)", shown2),
+                        note: "a name declared DIM SHARED is the same object in every subprogram; a local DIM of that name must not shadow it".into(),
+                    });
+                }
+            }
+        }
+    }
     oracle(
         rep,
         "rule:locals-fresh-per-call",
